@@ -390,7 +390,7 @@ GROUPS.append(Group('solveRecursive_check', 'h_sr_check', enforce='CspSolver_sol
 GROUPS.append(Group('solve_attach', 'h_attach', enforce='CspSolver_solve_attach', replace=('ConstrSet_setBit',), loop_contracts=True, min_props=5, expect_loop_props=1, timeout=1800))
 GROUPS.append(Group('solveRecursive', 'h_sr_outer', enforce='CspSolver_solveRecursive_outer',
                     replace=('CspSolver_solveRecursive', 'CspSolver_solveRecursive_check', 'CspSolver_getBitVal', 'Domain_empty', 'Domain_clearBit'),
-                    loop_contracts=True, min_props=10, expect_loop_props=1, timeout=3000))
+                    loop_contracts=True, min_props=10, expect_loop_props=1, timeout=7200))
 PROPERTIES = {'C20': [g.name for g in GROUPS if g.name != 'makeArcConsistent']}
 ASSUMPTIONS = {'C20': ['callers respect the documented argument ranges of addMinVal/addMaxVal/setRange (the repo asserts in addVariable/addIneq; their callers in extproofkernel.cpp are outside the subset)']}
 NOT_DECIDED = {'C20': ['CspSolver::makeArcConsistent (loop invariant with a ghost solution written and cut mechanically, inductive step not discharged within 15 min by any back end tried)',
